@@ -61,7 +61,9 @@ def run_encoder(r, defn, make_msg, merge=True):
         holder['msg'] = msg
         return ex._run_body(info, [msg], {}, None)
     contracts = pgns_c.encoder_contracts(r)
-    results = explore(r, run, contracts=contracts, inline={'nmea2000.message.NMEA2000Message.get_field_by_id'},
+    from contracts.message_c import c_get_field_by_id
+    contracts['nmea2000.message.NMEA2000Message.get_field_by_id'] = c_get_field_by_id
+    results = explore(r, run, contracts=contracts, inline=(),
                       hooks={'bit_length': bit_length_hook})
     return info, results
 
